@@ -3,8 +3,9 @@
    before/after every search).  Proved for every position, depth, TT content, history, poll schedule and stop point:
    every search ends with ply = 0, the repetition index where it started, the recorded history untouched -- and it always ends
    (the fuel of the model is never exhausted).  The same per call of negamax / quiescence (the backbone reused by C06/C09/C12). *)
-From Coq Require Import NArith ZArith List.
-From JV Require Import Gen.Consts Model.Chess Model.Eval Model.TT Model.Search Model.SearchChess Proofs.SearchBalance.
+From Coq Require Import NArith ZArith List Bool.
+From JV Require Import Gen.Consts Model.Chess Model.Eval Model.TT Model.Search Model.SearchChess Model.Fen Model.Uci Proofs.SearchBalance.
+Import ListNotations.
 
 Theorem C17_search_frame : forall pollp stop_at bypass g depth t rt ri,
   exists outs e s, chess_search pollp stop_at bypass g depth t rt ri = SDone outs e s /\ ply e = O /\ ridx e = ri /\
@@ -42,6 +43,35 @@ Proof.
   unfold chess_quiescence. destruct (quiescence _ _ _ _ _ _ _ _ _ _ _ _ _ g a b e); exact H.
 Qed.
 
+From Coq Require Import String.
+Open Scope string_scope.
+(* at the level of the UCI main loop (Model/Uci.v): every command line other than `position`, `ucinewgame` and `cleartt` -- `go` with any
+   arguments and any poll/stop schedule, `eval`, `d`, `isready`, `uci`, `stop`, unknown lines, the unmodelled `perft` family -- leaves
+   the current position and the recorded game history exactly as they were (only the transposition table may change) *)
+Theorem C17_inspecting_commands_keep_position_and_history : forall extra u line input,
+  let cmd := lower_str (first_token (trim line)) in
+  cmd <> "position" -> cmd <> "ucinewgame" -> cmd <> "cleartt" ->
+  let '(u', _, _, _, _) := uci_step extra u line input in u_game u' = u_game u /\ u_rep u' = u_rep u.
+Proof.
+  intros extra u line input cmd N1 N2 N3. unfold uci_step. cbn zeta. fold cmd.
+  destruct (String.eqb (trim line) ""); [split; reflexivity|].
+  destruct (String.eqb cmd "quit" || String.eqb cmd "exit" || String.eqb cmd "x")%bool; [split; reflexivity|].
+  destruct (String.eqb cmd "uci"); [split; reflexivity|].
+  destruct (String.eqb cmd "isready"); [split; reflexivity|].
+  destruct (String.eqb_spec cmd "ucinewgame") as [E|_]; [contradiction|]. destruct (String.eqb_spec cmd "cleartt") as [E|_]; [contradiction|]. cbn [orb].
+  destruct (String.eqb cmd "d"); [split; reflexivity|].
+  destruct (String.eqb cmd "eval"); [split; reflexivity|].
+  destruct (String.eqb_spec cmd "position") as [E|_]; [contradiction|].
+  destruct (String.eqb cmd "go").
+  - destruct (go_tokens _ _ _ _ _); try (split; reflexivity).
+    destruct (negb _); [split; reflexivity|].
+    destruct (session_search _ _ _ _ _); [|split; reflexivity].
+    destruct (if (_ =? 0)%Z then _ else _) as [[nready stopper] rest]. split; reflexivity.
+  - destruct (String.eqb cmd "stop"); [split; reflexivity|].
+    destruct (_ || _)%bool; split; reflexivity.
+Qed.
+
 Print Assumptions C17_search_frame.
+Print Assumptions C17_inspecting_commands_keep_position_and_history.
 Print Assumptions C17_negamax_balanced.
 Print Assumptions C17_quiescence_balanced.
